@@ -549,4 +549,19 @@ def TranslateScale.mul_QuadBez (self : TranslateScale K) (other : QuadBez K) : Q
 def TranslateScale.mul_CubicBez (self : TranslateScale K) (other : CubicBez K) : CubicBez K :=
   (CubicBez.new (self * other.p0) (self * other.p1) (self * other.p2) (self * other.p3))
 
+def Vec2.div_exact (self : Vec2 K) (divisor : K) : Vec2 K :=
+  ({ x := (self.x / divisor), y := (self.y / divisor) } : Vec2 K)
+
+def CubicBez.approx_quad_control (self : CubicBez K) (t : K) : Point K :=
+  (let p1 := (self.p0 + ((self.p1 - self.p0) * (Scalar.ofRat (3/2 : Rat) : K))); (let p2 := (self.p3 + ((self.p2 - self.p3) * (Scalar.ofRat (3/2 : Rat) : K))); (p1.lerp p2 t)))
+
+def CubicBez.parameters (self : CubicBez K) : Vec2 K × Vec2 K × Vec2 K × Vec2 K :=
+  (let c := ((self.p1 - self.p0) * (3 : K)); (let b := (((self.p2 - self.p1) * (3 : K)) - c); (let d := self.p0.to_vec2; (let a := (((self.p3.to_vec2 - d) - c) - b); (a, b, c, d)))))
+
+def CubicBez.from_parameters (a b c d : Vec2 K) : CubicBez K :=
+  (let p0 := d.to_point; (let p1 := ((c.div_exact (3 : K)).to_point + d); (let p2 := (((b + c).div_exact (3 : K)).to_point + p1.to_vec2); (let p3 := (((a + d) + c) + b).to_point; (CubicBez.new p0 p1 p2 p3)))))
+
+def CubicBez.subdivide_3 (self : CubicBez K) : CubicBez K × CubicBez K × CubicBez K :=
+  (let (p0, p1, p2, p3) := (self.p0.to_vec2, self.p1.to_vec2, self.p2.to_vec2, self.p3.to_vec2); (let one_27th := (srecip (27 : K)); (let mid1 := ((((((8 : K) * p0) + ((12 : K) * p1)) + ((6 : K) * p2)) + p3) * one_27th).to_point; (let deriv1 := (((p3 + ((3 : K) * p2)) - ((4 : K) * p0)) * one_27th); (let mid2 := ((((p0 + ((6 : K) * p1)) + ((12 : K) * p2)) + ((8 : K) * p3)) * one_27th).to_point; (let deriv2 := (((((4 : K) * p3) - ((3 : K) * p1)) - p0) * one_27th); (let left := (CubicBez.new self.p0 ((((2 : K) * p0) + p1).div_exact (3 : K)).to_point (mid1 - deriv1) mid1); (let mid := (CubicBez.new mid1 (mid1 + deriv1) (mid2 - deriv2) mid2); (let right := (CubicBez.new mid2 (mid2 + deriv2) ((p2 + ((2 : K) * p3)).div_exact (3 : K)).to_point self.p3); (left, mid, right))))))))))
+
 end Kurbo
